@@ -393,6 +393,11 @@ def c02(ctx):
         ok = reaches(path)
         rep.ob("C02.R11", "suffix-after::" + nm, ok, "" if ok else "Lexer::%s no longer reaches maybe_followed_by_apostrophe_suffix: a `'s` / `'re` glued to such a token is not recognised as a contraction (the apostrophe is dropped as noise and the letters become a word)" % nm,
                lex_fns[path].loc(), how="reaches maybe_followed_by_apostrophe_suffix")
+    rep.rule("C02.R12", "a number literal denotes its written value: every text the front end reads as a number is read by `str::parse::<f64>` applied "
+             "to the literal's text itself (no integer parse for plain digits -- it overflows where the float parser rounds -- and no "
+             "preparation of the text); rule shared with C07.R10")
+    from .c07 import string_to_number_rule as _s2n
+    _s2n(ctx, "C02.R12", prefix="src/frontend/", floor=1)
     # list operands: the "inside a list" flag
     rep.rule("C02.R10", "list operands group the same way wherever they stand: Parser.parsing_list is written only by the list parser, and every "
              "non-error return of the list parser leaves it false (a write of `false` lies on every path from each write of `true`, and from "
